@@ -213,6 +213,11 @@ type Action struct {
 	// peer sees ECONNRESET) instead of closing it gracefully. With DropAfter
 	// the reply may then never reach the peer although it counts as written.
 	RST bool
+	// AbortPayloadAfter (> 0, meaningful for a 3xx reply at StageData only)
+	// makes the server read that many payload bytes after the 354 and then
+	// drop the connection (abortively with RST) in the middle of the message:
+	// the client is still streaming the body when its writes start to fail.
+	AbortPayloadAfter int
 }
 
 // ConnRecord is the transcript of one connection.
@@ -346,6 +351,9 @@ type connRec struct {
 
 // writeTimeout bounds a reply write (which happens under the record lock).
 const writeTimeout = 30 * time.Second
+
+// readPayloadAbortTimeout bounds the partial payload read of Action.AbortPayloadAfter.
+const readPayloadAbortTimeout = 5 * time.Second
 
 // New starts a server.
 func New(cfg Config) (*Server, error) {
@@ -580,6 +588,7 @@ type conn struct {
 	rcptIdx  int // RCPT commands seen in the active transaction
 	rawClose bool
 	ended    bool
+	lastAct  *Action // the action applied to the command being answered
 }
 
 type reply struct {
@@ -858,6 +867,7 @@ func (c *conn) respond(ev Event, line string, def reply, onSent sentFunc) (code 
 func (c *conn) apply(act *Action, idx int, def reply, onSent sentFunc) (code int, stop bool) {
 	rp := def
 	var out []byte
+	c.lastAct = act
 	if act != nil {
 		if !c.pause(act.Delay, act.Hold) {
 			c.drop(false, "server-close")
@@ -1215,6 +1225,14 @@ func (c *conn) cmdData(line, arg string) bool {
 			r.Txns = append(r.Txns, TxnRecord{Conn: c.id, N: c.txnN, TLS: c.tls, DataCmdCode: code})
 			c.cur = len(r.Txns) - 1
 		})
+	}
+
+	if a := c.lastAct; a != nil && a.AbortPayloadAfter > 0 {
+		c.raw.SetReadDeadline(time.Now().Add(readPayloadAbortTimeout))
+		io.CopyN(io.Discard, c.br, int64(a.AbortPayloadAfter))
+		c.raw.SetReadDeadline(time.Time{})
+		c.drop(a.RST, "abort-mid-payload")
+		return true
 	}
 
 	payload, err := readData(c.br)
